@@ -17,6 +17,9 @@ pub fn mapping_m1() -> Vec<Line> {
         method(Some((1, 3)), None, "outer", "", Orig::S(20), "m"),
         method(Some((5, 5)), None, "other", "", Orig::None, "m"),
         method(None, None, "nolines", "", Orig::None, "n"),
+        // a class without sourceFile header: resolving frames keep the file of the input frame
+        class("com.example.NoFile", "a.c"),
+        method(Some((1, 3)), None, "run", "", Orig::SE(10, 12), "r"),
     ]
 }
 /// knows none of the names the traces use
@@ -152,7 +155,7 @@ pub fn model_text<'a>(model: &'a Model, text: &'a str) -> String {
     out
 }
 
-pub const SHAPES: [&str; 34] = [
+pub const SHAPES: [&str; 35] = [
     "a.E: boom",
     "a.E",
     "x.Unknown: msg",
@@ -166,6 +169,7 @@ pub const SHAPES: [&str; 34] = [
     "    at a.b.m(F.java:99)",
     "    at a.b.n(Native Method)",
     "    at a.b.n(Unknown Source)",
+    "    at a.c.r(Unknown Source:2)",
     "Caused by: a.E: inner",
     "Caused by: x.Unknown",
     "  Caused by: a.E: indented",
@@ -209,21 +213,25 @@ struct Built {
     lines: Vec<Line>,
     bytes: Vec<u8>,
     model: Model,
+    /// the "mapper" subject of this mapping is the one built WITH the parameter index (every second mapping):
+    /// by-line answers, text and typed traces must not depend on that flag
+    param_mapper: bool,
 }
 
 fn build_all() -> Vec<Built> {
     mappings()
         .into_iter()
-        .map(|(label, lines)| {
+        .enumerate()
+        .map(|(i, (label, lines))| {
             let bytes = print_file(&lines, Term::Lf);
             let model = Model::fold(&lines);
-            Built { label, lines, bytes, model }
+            Built { label, lines, bytes, model, param_mapper: i % 2 == 1 }
         })
         .collect()
 }
 
-fn with_both<R>(bytes: &[u8], ab: &mut Aligned, f: impl FnOnce(&dyn Subj, &dyn Subj) -> R) -> R {
-    cur::with_subjects(bytes, ab, |m, _mp, c, _| f(m, c)).expect("trace-space mappings build")
+fn with_both<R>(b: &Built, ab: &mut Aligned, f: impl FnOnce(&dyn Subj, &dyn Subj) -> R) -> R {
+    cur::with_subjects(&b.bytes, ab, |m, mp, c, _| if b.param_mapper { f(mp, c) } else { f(m, c) }).expect("trace-space mappings build")
 }
 
 fn check_text(b: &Built, text: &str, mapper: &dyn Subj, cache: &dyn Subj, acc: &mut Acc) {
@@ -378,13 +386,13 @@ pub fn run_c07(tier: Tier) -> i32 {
         // nest the three with_both calls so that all subjects are alive together
         let (a0, rest) = abs.split_at_mut(1);
         let (a1, a2) = rest.split_at_mut(1);
-        with_both(&builts[0].bytes, &mut a0[0], |m0, c0| with_both(&builts[1].bytes, &mut a1[0], |m1, c1| with_both(&builts[2].bytes, &mut a2[0], |m2, c2| run(&[(m0, c0), (m1, c1), (m2, c2)]))));
+        with_both(&builts[0], &mut a0[0], |m0, c0| with_both(&builts[1], &mut a1[0], |m1, c1| with_both(&builts[2], &mut a2[0], |m2, c2| run(&[(m0, c0), (m1, c1), (m2, c2)]))));
     });
     let meta = RunMeta {
         prop: "C07",
         tier,
         level: "model_checking",
-        rule: format!("every text of 1..={} lines over 34 line shapes (plus long lines and run-length texts: 99..1001 unresolved frames followed by a resolving one; plus 5 long lines of 1.1 kB / 70 kB placed first, between and after <= 2 other shapes) (throwables known/unknown with/without message, message containing ': ' and frame-like text, frames space/tab/trailing-blank indented that resolve to 2 / 1 / 0 frames, unknown method, unknown class, line outside every range, Native Method, Unknown Source, 'Caused by:' known/unknown/indented, '... n more', blank, 'at x(y:1)', non-ASCII) x 3 terminator policies (LF, CRLF, no final newline) x 3 mappings x {{mapper, cache}}; oracle = text model R12 with an independent line classifier. states = (text, mapping); distinct = distinct expected outputs; non-trivial = outputs that differ from the normalised input", depth),
+        rule: format!("every text of 1..={} lines over 35 line shapes (plus long lines and run-length texts: 99..1001 unresolved frames followed by a resolving one; plus 5 long lines of 1.1 kB / 70 kB placed first, between and after <= 2 other shapes) (throwables known/unknown with/without message, message containing ': ' and frame-like text, frames space/tab/trailing-blank indented that resolve to 2 / 1 / 0 frames, unknown method, unknown class, line outside every range, Native Method, Unknown Source, 'Caused by:' known/unknown/indented, '... n more', blank, 'at x(y:1)', non-ASCII) x 3 terminator policies (LF, CRLF, no final newline) x 3 mappings x {{mapper (for every second mapping the one built with the parameter index), cache}}; oracle = text model R12 with an independent line classifier. states = (text, mapping); distinct = distinct expected outputs; non-trivial = outputs that differ from the normalised input", depth),
         bounds: json!({"lines": depth, "shapes": SHAPES.to_vec(), "terminators": ["LF","CRLF","LF without final newline"], "mappings": mappings().iter().map(|(l, m)| json!({"label":l,"text":esc(&print_file(m, Term::Lf))})).collect::<Vec<_>>()}),
         assumptions: vec!["lines are split like str::lines (LF, CR dropped only directly before LF)".into()],
         trusted_base: vec!["rustc/std (str::trim, str::parse::<usize>)".into(), "text model + line classifier in pgmc/src/props/e3.rs".into(), "reference model pgmc/src/model.rs".into()],
@@ -400,7 +408,7 @@ pub fn recheck_text(case: &Value) -> Vec<String> {
     for b in &builts {
         if b.label == label {
             let mut ab = Aligned::new(&[]);
-            with_both(&b.bytes, &mut ab, |m, c| check_text(b, &text, m, c, &mut acc));
+            with_both(b, &mut ab, |m, c| check_text(b, &text, m, c, &mut acc));
         }
     }
     acc.violations.keys().cloned().collect()
@@ -535,7 +543,7 @@ fn c08_run_lengths(builts: &[Built], acc: &mut Acc) {
     for t in run_length_texts() {
         for b in [&builts[3], &builts[2]] {
             let mut ab = Aligned::new(&[]);
-            with_both(&b.bytes, &mut ab, |m, c| {
+            with_both(b, &mut ab, |m, c| {
                 if let Some((parsed, _, _)) = m.remap_typed_text(&t) {
                     check_typed(b, &parsed, true, m, c, acc);
                     acc.count("run-length typed traces", 1);
@@ -543,6 +551,72 @@ fn c08_run_lengths(builts: &[Built], acc: &mut Acc) {
             });
         }
     }
+}
+
+/// typed traces whose frames carry a parameter list instead of a line (`StackFrame::with_parameters`): a frame that
+/// resolves is replaced by the entries with that parameter list (R10), any other frame is kept unchanged -
+/// including its parameter list, read through the accessor
+fn c08_param_frames(builts: &[Built], acc: &mut Acc) {
+    let pool: Vec<(String, String, String)> = {
+        let mut v = Vec::new();
+        for (c, m) in [("a.b", "m"), ("a.b", "n"), ("a.b", "zz"), ("x.Unknown", "m"), ("d.D", "k")] {
+            for p in ["", "int", "zz.Unknown"] {
+                v.push((c.to_string(), m.to_string(), p.to_string()));
+            }
+        }
+        v
+    };
+    for b in builts {
+        let mut ab = Aligned::new(&[]);
+        let r = guarded(|| {
+            cur::with_subjects(&b.bytes, &mut ab, |m, mp, c, _| {
+                let mut a2 = Acc::new();
+                // all sequences of <= 2 frames
+                let mut seqs: Vec<Vec<(String, String, String)>> = pool.iter().map(|f| vec![f.clone()]).collect();
+                for x in &pool {
+                    for y in &pool {
+                        seqs.push(vec![x.clone(), y.clone()]);
+                    }
+                }
+                let mut mout = Vec::new();
+                for seq in &seqs {
+                    for (label, s, has_index) in [("mapper", m as &dyn Subj, false), ("mapper-index", mp as &dyn Subj, true), ("cache", c as &dyn Subj, true)] {
+                        a2.states += 1;
+                        a2.transitions += 1;
+                        a2.observations += 1;
+                        let mut exp: Vec<(String, String, usize, Option<String>, Option<String>)> = Vec::new();
+                        for (cl, me, pa) in seq {
+                            b.model.frames_by_params(cl, me, pa, &mut mout);
+                            if has_index && !mout.is_empty() {
+                                for f in &mout {
+                                    exp.push((f.class.to_string(), f.method.to_string(), 0, None, Some(pa.clone())));
+                                }
+                            } else {
+                                exp.push((cl.clone(), me.clone(), 0, None, Some(pa.clone())));
+                            }
+                        }
+                        let got: Vec<(String, String, usize, Option<String>, Option<String>)> = s.remap_typed_param_frames(seq).iter().map(|f| (f.class.to_string(), f.method.to_string(), f.line, f.file.map(|x| x.to_string()), f.params.map(|x| x.to_string()))).collect();
+                        a2.outcome(h64(&exp), exp.len() != seq.len() || exp.iter().zip(seq.iter()).any(|(e, q)| e.0 != q.0));
+                        if got != exp {
+                            a2.violation(format!("typed:{}:param-frames", label), seq.len(), || {
+                                (
+                                    format!("remap_stacktrace_typed on {} with mapping {}: frames built with_parameters {:?}: expected {:?} got {:?}", label, b.label, seq, exp, got),
+                                    json!({"kind":"param-frames","mapping":b.label,"frames":seq.iter().map(|(c, m, p)| json!([c, m, p])).collect::<Vec<_>>(),"subject":label}),
+                                )
+                            });
+                        }
+                    }
+                }
+                a2
+            })
+        });
+        match r {
+            Ok(Ok(a2)) => acc.merge(a2),
+            Ok(Err(e)) => acc.violation("typed:param-frames:build", 0, || (e.clone(), json!({"kind":"param-frames","mapping":b.label,"frames":[]}))),
+            Err(p) => acc.violation(format!("panic:{}", panic_site(&p)), 0, || (p.clone(), json!({"kind":"param-frames","mapping":b.label,"frames":[]}))),
+        }
+    }
+    acc.count("typed traces of with_parameters frames", 1);
 }
 
 pub fn run_c08(tier: Tier) -> i32 {
@@ -569,10 +643,13 @@ pub fn run_c08(tier: Tier) -> i32 {
         if (ti, fi) == (0, 0) {
             c08_run_lengths(&builts, acc);
         }
+        if (ti, fi) == (1, 0) {
+            c08_param_frames(&builts, acc);
+        }
         let mut abs: Vec<Aligned> = vec![Aligned::new(&[]), Aligned::new(&[])];
         let (a1, a2) = abs.split_at_mut(1);
-        with_both(&builts[3].bytes, &mut a1[0], |m1, c1| {
-            with_both(&builts[2].bytes, &mut a2[0], |m2, c2| {
+        with_both(&builts[3], &mut a1[0], |m1, c1| {
+            with_both(&builts[2], &mut a2[0], |m2, c2| {
                 let subs: [(&Built, &dyn Subj, &dyn Subj); 2] = [(&builts[3], m1, c1), (&builts[2], m2, c2)];
                 let top = mk_level(THROWABLES[ti], &fseqs[fi]);
                 let degenerate_top = top.exception.is_none() && top.frames.is_empty();
@@ -624,7 +701,7 @@ pub fn run_c08(tier: Tier) -> i32 {
         prop: "C08",
         tier,
         level: "model_checking",
-        rule: format!("every typed trace with a top level from {} levels (exception absent / known / unknown x message / none; 0..2 frames over 8 frame kinds: resolving to 2 frames, unknown method, unknown class, entry without lines, known method with a line outside every range, two class names with a module prefix containing '/', a frame resolving to 40 frames) and cause chains of depth 0..={} (first cause level: {}; deeper levels: {} ) x 2 mappings x {{mapper, cache}}; plus long traces (99..1001 unresolved frames followed by resolving ones, frames that differ only in their file); oracle R13 (same depth, every throwable remapped-or-identical, every frame expanded-or-identical, order kept) and, for every trace, printed typed result == text API on the printed input. distinct = distinct expected traces; non-trivial = expected != input", nlevels, max_depth, if t { "all levels with an exception" } else { "levels with an exception and <= 1 frame" }, if t { "depth 2: the first 40 levels with an exception, depth 3: the 8-level pool {known, unknown} x {no frame, resolving, '/'-class, 40-deep}; plus depth-4 chains: first level <= 1 frame, then the 8-level pool" } else { "the 8-level pool {known, unknown} x {no frame, resolving, '/'-class, 40-deep}" }),
+        rule: format!("every typed trace with a top level from {} levels (exception absent / known / unknown x message / none; 0..2 frames over 8 frame kinds: resolving to 2 frames, unknown method, unknown class, entry without lines, known method with a line outside every range, two class names with a module prefix containing '/', a frame resolving to 40 frames) and cause chains of depth 0..={} (first cause level: {}; deeper levels: {} ) x 2 mappings x {{mapper, cache}}; plus typed traces of 1..2 frames built with StackFrame::with_parameters over 15 (class, method, parameter list) triples (a resolving frame is replaced by the entries with that parameter list, any other is kept unchanged including its parameter list; the mapper without the index keeps all) on mapper / mapper-with-index / cache; plus long traces (99..1001 unresolved frames followed by resolving ones, frames that differ only in their file); oracle R13 (same depth, every throwable remapped-or-identical, every frame expanded-or-identical, order kept) and, for every trace, printed typed result == text API on the printed input. distinct = distinct expected traces; non-trivial = expected != input", nlevels, max_depth, if t { "all levels with an exception" } else { "levels with an exception and <= 1 frame" }, if t { "depth 2: the first 40 levels with an exception, depth 3: the 8-level pool {known, unknown} x {no frame, resolving, '/'-class, 40-deep}; plus depth-4 chains: first level <= 1 frame, then the 8-level pool" } else { "the 8-level pool {known, unknown} x {no frame, resolving, '/'-class, 40-deep}" }),
         bounds: json!({"top_levels": nlevels, "max_cause_depth": max_depth, "throwables": THROWABLES.iter().map(|t| format!("{:?}", t)).collect::<Vec<_>>(), "frames": FRAMES.iter().map(|f| format!("{:?}", f)).collect::<Vec<_>>()}),
         assumptions: vec!["canonical printed form: frames carry a file, cause levels carry an exception, the top level has an exception or a frame".into()],
         trusted_base: vec!["rustc/std".into(), "reference model pgmc/src/model.rs + model_typed in pgmc/src/props/e3.rs".into()],
@@ -635,12 +712,16 @@ pub fn run_c08(tier: Tier) -> i32 {
 pub fn recheck_typed(case: &Value) -> Vec<String> {
     let builts = build_all();
     let mut acc = Acc::new();
+    if case["kind"] == "param-frames" {
+        c08_param_frames(&builts, &mut acc);
+        return acc.violations.keys().cloned().collect();
+    }
     let label = case["mapping"].as_str().unwrap_or("");
     let t = otrace_from_json(&case["trace"]);
     for b in &builts {
         if b.label == label {
             let mut ab = Aligned::new(&[]);
-            with_both(&b.bytes, &mut ab, |m, c| check_typed(b, &t, case["canonical"].as_bool().unwrap_or(true), m, c, &mut acc));
+            with_both(b, &mut ab, |m, c| check_typed(b, &t, case["canonical"].as_bool().unwrap_or(true), m, c, &mut acc));
         }
     }
     acc.violations.keys().cloned().collect()
